@@ -1492,7 +1492,15 @@ class Registry:
     def assume_invariant(self, ex, st, lc: LoopContract, entry_state):
         for cl in lc.invariant:
             t = self.spec_eval(ex, st, cl.fn, self.lambda_env(cl.fn, dict(st.env)), pre_heap=st.pre_heap, entry=entry_state)
-            st.assume(ex.truth(st, t), f"inv:{cl.name}|{','.join(cl.serves)}")
+            tt = ex.truth(st, t)
+            if z3.is_false(z3.simplify(tt)):
+                raise EngineUnsupported(f"loop invariant clause {cl.name} is identically false at the loop head: "
+                                        f"the cut would make the loop body vacuous")
+            st.assume(tt, f"inv:{cl.name}|{','.join(cl.serves)}")
+        # vacuity guard: the invariant (with the havoced state) must be satisfiable, otherwise every obligation of the
+        # body and of the code after the loop is discharged from a contradiction
+        if solve.quick_unsat([h for _, h in st.pc], timeout_ms=400):
+            raise EngineUnsupported("the loop invariant contradicts the state at the loop head: vacuous cut")
 
     def loop_frame_check(self, ex, pre, head, end, lc, ordinal, lineno):
         """Soundness of the loop cut: a heap cell that existed at the loop head, was not havoced there (it is neither
